@@ -412,6 +412,33 @@ impl Prop for C18 {
             std::fs::write(&path, if case.hash_seed % 8 == 0 { junk } else { crate::model::gz::pack(&crate::model::gz::Gz::Flate(6), &junk) }).expect("harness: pre-existing file");
             x.count("probe.path_already_holds_a_file");
         }
+        // an earlier call on the same thread - refused, failing at open, or successful - must not leak into this one
+        // (state kept between calls: scratch buffers, caches)
+        match case.hash_seed % 7 {
+            1 | 2 | 3 => {
+                x.begin_op(98);
+                let mut other = v1::Instance::default();
+                other.sense = v1::instance::Sense::Minimize as i32;
+                other.decision_variables.push(crate::model::msg::dvar(77, v1::decision_variable::Kind::Continuous as i32, Some((0.0, 4.0))));
+                let kind = case.hash_seed % 7;
+                other.objective = Some(if kind == 1 { crate::model::msg::f_quad(crate::model::msg::quadratic(&[(77, 77, 1.0)], None)) } else { crate::model::msg::f_lin(crate::model::msg::linear(&[(77, 2.5)], 1.0)) });
+                let target = if kind == 2 {
+                    std::fs::write(x.path("blocker"), b"x").expect("harness: blocker file");
+                    x.path("blocker").join("prior.mps.gz")
+                } else {
+                    x.path("prior.mps.gz")
+                };
+                let r = x.sut(|| ommx::mps::write_file(&other, &target));
+                match (kind, r) {
+                    (_, Err(p)) => x.violate("C18:write_file:panic", format!("an earlier write_file call panicked: {p}")),
+                    (3, Ok(Err(e))) => x.violate("C18:write-fails-without-hard-fault", format!("an earlier, fault-free write_file of a one-variable instance returned Err({e})")),
+                    (1 | 2, Ok(Ok(()))) => x.violate(if kind == 1 { "C18:nonlinear-accepted" } else { "C18:write-ok-on-unopenable-path" }, "an earlier write_file call that cannot succeed returned Ok".into()),
+                    _ => {}
+                }
+                x.count("probe.earlier_call_on_the_same_thread");
+            }
+            _ => {}
+        }
         // op 0: write
         x.begin_op(0);
         let w = x.sut(|| ommx::mps::write_file(&inst, &path));
